@@ -251,7 +251,7 @@ theorem rollback (h : KPos L) : KPos L.rollback := by
             toks := fun t ht => h.toks t (mem_truncR ht),
             lines := fun l hl => h.lines l (mem_truncR hl),
             errs := fun e he => h.errs e (mem_truncR he), cp := by intro c' hc'; simp at hc',
-            mark := h.mark, errReg := h.errReg }
+            mark := h.mark, errReg := by intro e he; simp at he }
   · exact h.emitError _
 
 theorem addStringLiteral (h : KPos L) (s : List Char) : KPos (L.addStringLiteral s).2 := { h with }
